@@ -23,7 +23,7 @@ def computeMultihash (H : HashFam) (code : Nat) (data : Bytes) : Option Bytes :=
   (H code).map fun h => mhEncode code (h data)
 
 /-- `GetMultihash`: (code, digest) of an encoded multihash -/
-def getMultihash (enc : String) : Option (Nat × Bytes) := (b64DecodeStr enc).bind mhDecode
+def getMultihash (enc : String) : Option (Nat × Bytes) := (b64DecodeStrictStr enc).bind mhDecode
 
 /-- `GetMultihashCode` -/
 def getMultihashCode (enc : String) : Option Nat := (getMultihash enc).map (·.1)
